@@ -56,9 +56,9 @@ fn key_ip(k: &str) -> IpAddr {
     // "k7" -> 10.0.0.7 ; odd keys as IPv6 for variety
     let n: u32 = k.trim_start_matches('k').parse().unwrap_or(0);
     if n % 2 == 0 {
-        IpAddr::from([10, 0, (n >> 8) as u8, n as u8])
+        IpAddr::from([10, (n >> 16) as u8, (n >> 8) as u8, n as u8])
     } else {
-        IpAddr::from([0x2001, 0xdb8, 0, 0, 0, 0, 0, n as u16])
+        IpAddr::from([0x2001, 0xdb8, 0, 0, 0, 0, (n >> 16) as u16, n as u16])
     }
 }
 
@@ -77,7 +77,12 @@ fn run_one(d: u64, l: usize, tick_ms: u64, ops: &[Value], reader: &Shared, uptim
             let mut t: u64 = 0;
             let mut h = vec![];
             for op in ops {
-                if op["op"] == "adv" {
+                if op["op"] == "flood" {
+                    // very many OTHER keys visit once each, at this very moment (not part of the recorded history of the key under judgement)
+                    for j in 0..op["n"].as_u64().unwrap_or(0) {
+                        let _ = main.enqueue(key_ip(&format!("k{}", 1000 + j)));
+                    }
+                } else if op["op"] == "adv" {
                     let dt = op["dt"].as_u64().unwrap_or(0);
                     tokio::time::advance(Duration::from_millis(dt * tick_ms)).await;
                     t += dt;
@@ -170,6 +175,17 @@ pub fn main(args: &[String]) {
             let up = uptime(seed + i as u64, total / 2 + 1);
             let (h, panic) = run_one(d, l, tick, &ops, &reader, up);
             emit("walk", d, l, tick, &ops, h, panic, up);
+        }
+    }
+    if random > 0 {
+        // one key uses up its budget; 70,000 (thorough: 300,000) other keys visit once each at the same moment; the key is still refused
+        for (d, l) in [(4u64, 3usize), (2, 1)] {
+            let mut ops: Vec<Value> = (0..=l).map(|_| json!({"op": "enq", "k": "k1"})).collect();
+            ops.push(json!({"op": "flood", "n": if random > 1000 { 300_000 } else { 70_000 }}));
+            ops.push(json!({"op": "enq", "k": "k1"}));
+            ops.push(json!({"op": "enq", "k": "k1"}));
+            let (h, panic) = run_one(d, l, 1000, &ops, &reader, 0);
+            emit("flood", d, l, 1000, &ops, h, panic, 0);
         }
     }
     let mut r = Rng::new(seed ^ 0xabcdef);
